@@ -33,6 +33,16 @@ CHECKS = {
          'Every opcode slot is executed on the plain Python simulator and both contended simulators with PC, pointer, stack, IR and port addresses placed in contended / uncontended / ROM memory at frame positions covering all phases around both ends of the contended window; TLC computes the instruction\'s machine-cycle list and the documented wait pattern and requires dT = uncontended timing + delay, never faster than plain, and register/flag/memory/port effects equal to the plain simulator (MEMPTR-derived bits aside).',
          'Frame positions and placements are sampled per slot plus a deterministic sweep at both edges of the contention window; 48K layout only so far (128K frame layout and odd-bank contention are specified in Z80Bus but not yet driven); the OTIR/OTDR internal-cycle address is accepted in both readings (DontCare OtirInternalBC).',
          'DESIGN.md §4 C19'),
+ 'C01': ('model_checking',
+         'TLA+ Tiling specification (model-checked) + TLC judging of recorded sna2skool -> skool2bin pipelines against the original memory image',
+         'Generated memory images, ranges, control files (all block/sub-block types, sublength lists with bases, multipliers, string/byte mixes, M directives) and option vectors are run through the real sna2skool.main and skool2bin.main; TLC checks statement order/coverage and that every non-ignored original byte is reproduced at its address.',
+         'Control files are generated by harness/drivers/ctlgen.py with boundaries placed by a Python port of Z80Asm!Length; base m is not used where a negative operand is not meaningful (DEFS size, RST, IN/OUT port); mid-range i blocks and L directives are not generated yet.',
+         'DESIGN.md §4 C01'),
+ 'C02': ('model_checking',
+         'TLA+ specifications of the instruction templates/operands (Z80Asm) and of the operand-literal grammar (AsmLit); TLC judges disassemble->assemble and assemble->disassemble->assemble round trips of the real Assembler/Disassembler',
+         'Every opcode slot x special operand bytes x addresses (incl. the 64K boundary) x base indicators x case x default base x Opcodes sets is disassembled and reassembled; TLC requires identical bytes, the specification\'s template, and that every numeric literal - parsed by the AsmLit grammar - denotes the operand value decoded by the specification. DEFB/DEFM/DEFW/DEFS ranges with sublength lists and generated operand spellings (hex/bin/char/expressions/whitespace/case, edge displacements and jump offsets) are round-tripped.',
+         'Operand bytes and spellings are sampled (slot space complete); literals are located in the text by a tokenizer in the harness (trusted); base m excluded for RST, IN A,(n), OUT (n),A and DEFS sizes where a signed operand is not meaningful.',
+         'DESIGN.md §4 C02'),
 }
 
 PENDING = {}
